@@ -1,6 +1,10 @@
 use std::collections::{HashMap, HashSet};
+#[cfg(unix)]
+use std::ffi::OsStr;
 #[cfg(feature = "tls-rustls")]
 use std::net::IpAddr;
+#[cfg(unix)]
+use std::os::unix::ffi::OsStrExt;
 use std::pin::Pin;
 #[cfg(feature = "tls-rustls")]
 use std::str::FromStr;
@@ -477,8 +481,9 @@ impl LdapConnAsync {
                 if path.contains(':') || url.port().is_some() {
                     return Err(LdapError::PortInUnixPath);
                 }
-                let dec_path = percent_decode(path.as_bytes()).decode_utf8_lossy();
-                UnixStream::connect(dec_path.as_ref()).await?
+                // A path is a sequence of bytes, not necessarily UTF-8.
+                let dec_path: Vec<u8> = percent_decode(path.as_bytes()).collect();
+                UnixStream::connect(OsStr::from_bytes(&dec_path)).await?
             }
             Some(StdStream::Unix(stream)) => {
                 stream.set_nonblocking(true)?;
